@@ -597,17 +597,30 @@ def _float_eq(exp, got):
 
 
 def record_branch_ambiguity(n, d):
-    """At union n: does mapping datum d fit one branch exactly (every key accounted for) while ANOTHER
-    record branch accepts it only because validation ignores keys a record does not have?  Which of the
-    two a writer picks is not documented (fastavro: most top-level field names in common, first on a
-    tie) -- known finding, see KNOWN_FINDINGS.txt."""
+    """At union n: does mapping datum d fit one branch exactly (every key accounted for) while the branch
+    the DOCUMENTED selection rule arrives at accepts it only because validation ignores keys a record does
+    not have?  The documented rule (fastavro: among the record branches the datum validates against, the one
+    with most top-level field names in common, the first on a tie) cannot tell the two apart when the extra
+    keys sit further down -- known finding, see KNOWN_FINDINGS.txt.  A writer that picks a sloppy branch
+    although the documented rule points at the exact one is NOT covered by this."""
     n = deref(n)
     if n.k != "union" or not isinstance(d, _abc.Mapping) or "-type" in d:
         return False
-    exact = [b for b in n.branches if conforms(b, d, logical=False, strict_keys=True)]
-    sloppy = [b for b in n.branches if deref(b).k == "record" and conforms(b, d, logical=False)
-              and not conforms(b, d, logical=False, strict_keys=True)]
-    return bool(exact) and bool(sloppy)
+    best, most = None, -1
+    for b in n.branches:
+        if not conforms(b, d, logical=False):
+            continue
+        bb = deref(b)
+        if bb.k == "record":
+            matched = len({f.name for f in bb.fields} & set(d))
+            if matched > most:
+                best, most = b, matched
+        else:
+            best = b
+            break
+    if best is None or deref(best).k != "record" or conforms(best, d, logical=False, strict_keys=True):
+        return False
+    return any(conforms(b, d, logical=False, strict_keys=True) for b in n.branches)
 
 
 def has_record_branch_ambiguity(n, d, depth=0):
